@@ -134,3 +134,10 @@ Definition id_sort_objs := sort_objs id_eqb id_ltb (fun x : id => x).
 Definition id_reverse_sort_objs := reverse_sort_objs id_eqb id_ltb (fun x : id => x).
 Definition id_dep_rel := dep_rel id id_eqb (fun x : id => x).
 Definition id_lt := lt id id_ltb.
+(* the objects DependencyGraph rejects because of their depends-on annotation
+   (unparseable / a reference named twice / a reference outside the set) and
+   because of their apply-time-mutation annotation (unparseable / a source
+   outside the set) *)
+Definition id_dep_annot_bad := dep_annot_bad id.
+Definition id_mut_annot_bad := mut_annot_bad id.
+Definition id_dep_errors := dep_errors id_eqb.
